@@ -89,5 +89,80 @@ func GenColVal(r *gen.Rand, c ColSpec) Val {
 			v.B = gen.Bytes(r, 4+r.Intn(8))
 		}
 	}
+	return percentClass(v, c)
+}
+
+var percentSeq int
+
+// percentClass turns every fifth value written to an encrypted / searchable / masked text or bytea column into one carrying runs
+// of '%' (the first byte of the serialized-container tag "%%%") at the places where they meet a container: at the start and the
+// end of the value and, for masked columns, on both sides of the boundary between the visible window and the hidden part
+// (visible part ending in %, %%, %%%; hidden part starting with them; %%%% straddling the boundary). The choice is made from
+// a counter, not from the PRNG, so that the streams of all generators stay what they were.
+func percentClass(v Val, c ColSpec) Val {
+	if v.Null || (c.Kind != "enc" && c.Kind != "search" && c.Kind != "mask") || (c.AppType != fakepg.Text && c.AppType != fakepg.Bytea) {
+		return v
+	}
+	percentSeq++
+	if percentSeq%5 != 0 {
+		return v
+	}
+	class := percentSeq / 5
+	b := v.Bytes()
+	run := strings.Repeat("%", 1+class%4) // %, %%, %%%, %%%%
+	var out []byte
+	if c.Kind == "mask" {
+		n := c.MaskLen
+		fill := func(k int) string {
+			if k <= 0 {
+				return ""
+			}
+			return strings.Repeat("w", k)
+		}
+		visible := run
+		if len(visible) > n {
+			visible = visible[:n]
+		}
+		switch (class / 4) % 4 {
+		case 0: // visible window ends with the run
+			if c.MaskSide == "left" {
+				out = append([]byte(fill(n-len(visible))+visible), b...)
+			} else {
+				out = append(append([]byte{}, b...), []byte(visible+fill(n-len(visible)))...)
+			}
+		case 1: // hidden part touches the window with the run
+			if c.MaskSide == "left" {
+				out = append([]byte(fill(n)+run), b...)
+			} else {
+				out = append(append([]byte{}, b...), []byte(run+fill(n))...)
+			}
+		case 2: // the run straddles the boundary
+			if c.MaskSide == "left" {
+				out = append([]byte(fill(n-1)+"%"+run), b...)
+			} else {
+				out = append(append([]byte{}, b...), []byte(run+"%"+fill(n-1))...)
+			}
+		default: // the run at the far end of the value
+			if c.MaskSide == "left" {
+				out = append(append([]byte{}, b...), []byte(run)...)
+			} else {
+				out = append([]byte(run), b...)
+			}
+		}
+	} else {
+		switch (class / 4) % 3 {
+		case 0:
+			out = append([]byte(run), b...)
+		case 1:
+			out = append(append([]byte{}, b...), []byte(run)...)
+		default:
+			out = append(append([]byte(run), b...), []byte(run)...)
+		}
+	}
+	if v.Type == fakepg.Text {
+		v.S = string(out)
+	} else {
+		v.B = out
+	}
 	return v
 }
